@@ -73,9 +73,11 @@ Definition mk_enh (c : nat) (k : ekind) (asl : bool) (csk : bool) (child : expr)
   Enh (mka c asl csk (white a) (callpre a) (mayidx a) false false []) (ign_of child) k child.
 
 (* Forward().set_name(..) <<= body : callPreparse stays True; skipWhitespace / saveAsList are those of the body when
-   `<<=` runs (a MatchFirst before streamline: saveAsList False, whiteChars default, mayIndexError True) *)
+   `<<=` runs: the body is MatchFirst([matchExpr, lastExpr]) whose saveAsList is any(...) over its alternatives since /repo
+   e042d6c (computed in MatchFirst.__init__); matchExpr is always an And, so the flag is True.  whiteChars default,
+   mayIndexError True *)
 Definition mk_fwd (c : nat) (sk : bool) (idx : nat) : expr :=
-  Fwd (mka c false sk dw true true true true []) [] (Some idx).
+  Fwd (mka c true sk dw true true true true []) [] (Some idx).
 
 Definition sk_of (e : expr) : bool := skipws (attrs_of e).
 Definition first_sk (first : expr) (fsk : bool) : bool := if is_white_tok first then false else fsk.
